@@ -150,9 +150,26 @@ struct ACfg {
     }
 };
 static int g_nres = NRES;
-static uint64_t ncfg() { return 2ull * 2 * 3 * 2 * 2 * 4 * 2 * 2 * g_nres; }
+static bool g_gating32 = false;  // scanner x {disableDefaultEntityResolution, loadExternalDTD, loadSchema}; validation never, doSchema on, no resolver, SAX2
+static bool g_resolver96 = false;  // scanner x disableDefaultEntityResolution x the 12 (API, resolver) settings; validation auto, everything else permissive, file: URL base
+static uint64_t ncfg() { return g_gating32 ? 32 : g_resolver96 ? 96 : 2ull * 2 * 3 * 2 * 2 * 4 * 2 * 2 * g_nres; }
 static ACfg cfg_at(uint64_t i) {
     ACfg c;
+    if (g_gating32) {
+        c.res = 0; c.val = 0; c.doSchema = true; c.stdUri = false; c.urlBase = false;
+        c.scanner = (int)(i % 4); i /= 4;
+        c.disableDefRes = i & 1; i >>= 1;
+        c.loadExtDTD = !(i & 1); i >>= 1;
+        c.loadSchema = !(i & 1);
+        return c;
+    }
+    if (g_resolver96) {
+        c.val = 2; c.doSchema = true; c.loadSchema = true; c.loadExtDTD = true; c.stdUri = false; c.urlBase = true;
+        c.res = (int)(i % NRES); i /= NRES;
+        c.scanner = (int)(i % 4); i /= 4;
+        c.disableDefRes = i & 1;
+        return c;
+    }
     c.res = (int)(i % g_nres); i /= g_nres;
     c.scanner = (int)(i % 4); i /= 4;
     c.val = (int)(i % 3); i /= 3;
@@ -395,12 +412,8 @@ static const KnownDefect KNOWN_DEFECTS[] = {
     {"schema-doctype-ignores-disable-default-entity-resolution",
      "the internal XSDDOMParser that reads schema documents (resolveSchemaGrammar, TraverseSchema include/import/redefine) does not inherit disableDefaultEntityResolution: "
      "an external subset / entity referenced from a schema document's DOCTYPE is opened by the default mechanism although the feature is set"},
-    {"uaf-exception-while-PE-reader-on-stack",
-     "heap-use-after-free (ASan abort): an XMLException thrown while a parameter-entity reader pushed from the internal subset is still on the ReaderMgr stack "
-     "(nested external PE that cannot be opened / malformed URL) unwinds scanDocTypeDecl, ~DTDScanner frees the PE declarations, and the catch block of "
-     "scanDocument calls emitError -> ReaderMgr::getLastExtEntityInfo -> XMLEntityDecl::isExternal() on the freed declaration. These cases abort the worker and are skipped."},
 };
-static bool g_strict = false;  // --strict 1: report KNOWN_DEFECTS as violations / do not skip the aborting cases
+static bool g_strict = false;  // --strict 1: report KNOWN_DEFECTS as violations
 
 // ------------------------------------------------------------------------------------------------ the parse
 struct Outcome { int fatals = 0, errs = 0, warns = 0; std::string exc; std::vector<std::string> errors; };
@@ -459,8 +472,9 @@ static Outcome do_parse(const ACfg& c, const Built& b, AResolver& res) {
             DOMConfiguration* dc = p->getDomConfig();
             dc->setParameter(XMLUni::fgXercesScannerName, (void*)X16(ScnName[c.scanner]).p());
             dc->setParameter(XMLUni::fgDOMNamespaces, ns);
-            dc->setParameter(XMLUni::fgDOMValidate, c.val == 1);
-            dc->setParameter(XMLUni::fgDOMValidateIfSchema, c.val == 2);
+            // order matters: each of the two parameters overwrites the validation scheme ("validate-if-schema"=false resets it to never)
+            if (c.val == 2) { dc->setParameter(XMLUni::fgDOMValidate, false); dc->setParameter(XMLUni::fgDOMValidateIfSchema, true); }
+            else { dc->setParameter(XMLUni::fgDOMValidateIfSchema, false); dc->setParameter(XMLUni::fgDOMValidate, c.val == 1); }
             dc->setParameter(XMLUni::fgXercesSchema, c.doSchema);
             dc->setParameter(XMLUni::fgXercesLoadExternalDTD, c.loadExtDTD);
             dc->setParameter(XMLUni::fgXercesLoadSchema, c.loadSchema);
@@ -508,15 +522,6 @@ static void run_case(uint64_t idx, Ctx& cx) {
     Built b = build(word, c.urlBase);
     const ResDim& rd = RES[c.res];
 
-    // KNOWN_DEFECTS[2]: the parse would abort under ASan.  Exactly: a PE token with the nested identifier (container PE %k; read from the internal
-    // subset, pushed without a guard) whose container is obtained but whose nested external PE cannot be opened.
-    if (!g_strict) {
-        bool dtd = (c.scanner == IG || c.scanner == DG);
-        bool nestedFails = c.disableDefRes || (c.stdUri && !c.urlBase);
-        bool containerObtained = rd.mode == 1 || !nestedFails;
-        for (int t : word)
-            if (t / NIDKIND == K_PE && t % NIDKIND == I_NESTED && dtd && containerObtained && nestedFails) { cx.count(std::string("known_defect_skipped:") + KNOWN_DEFECTS[2].id); return; }
-    }
     g_vfs->clear();
     for (auto& f : b.files) g_vfs->put(f.first, f.second);
     AResolver res;
@@ -626,7 +631,8 @@ static void run_case(uint64_t idx, Ctx& cx) {
             cx.count("refs_permitted");
             if (c.disableDefRes && !supplied[i]) { cx.count(got ? "refs_permitted_but_defres_disabled_fetched" : "refs_blocked_by_disableDefaultEntityResolution"); nontrivial = true; }
             else if (got) { cx.count("refs_permitted_and_fetched"); cx.count(std::string("fetched:") + ClsName[r.cls]); nontrivial = true; if (r.depth) cx.count("nested_resolved_against_container_base"); }
-            else cx.count("refs_permitted_not_fetched");
+            else if (c.stdUri && !c.urlBase) cx.count("refs_permitted_not_fetched:path-base-rejected-under-standard-uri-conformant");
+            else { cx.count("refs_permitted_not_fetched:other"); cx.count(std::string("refs_permitted_not_fetched:other:") + ClsName[r.cls] + (o.fatals ? ":fatal" : ":nofatal")); if (getenv("C19_DEBUG_NOTFETCHED")) if (FILE* df = fopen(getenv("C19_DEBUG_NOTFETCHED"), "a")) fprintf(df, "NOTFETCHED %llu %s | %s | %s\n", (unsigned long long)idx, ClsName[r.cls], word_str(word).c_str(), c.str().c_str()), fclose(df); }
         } else {
             nontrivial = true;
             cx.count("refs_forbidden_and_untouched");
@@ -667,7 +673,9 @@ int main(int argc, char** argv) {
     g_k = (int)a.num("k", 1);
     g_strict = a.num("strict", 0) != 0;
     std::string cfgset = a.str("cfgset", "full");
-    if (cfgset == "gating") g_nres = 1;  // none@SAX2 only: scanner x the gating switches x uri/base
+    if (cfgset == "gating") g_nres = 1;  // none@SAX2 only: scanner x validation x the gating switches x uri/base (768)
+    if (cfgset == "gating32") g_gating32 = true;
+    if (cfgset == "resolver96") g_resolver96 = true;
     // --kinds / --ids restrict the alphabet (development aid); default: all 72 tokens
     for (int t = 0; t < NTOK; t++) {
         if (a.has("kind") && t / NIDKIND != a.num("kind")) continue;
